@@ -1,0 +1,36 @@
+// This Source Code Form is subject to the terms of the Mozilla Public
+// License, v. 2.0. If a copy of the MPL was not distributed with this
+// file, You can obtain one at http://mozilla.org/MPL/2.0/.
+
+//go:build verif
+
+package rruntime
+
+// Contracts for the deductive verifier in /verif (govc). Comment-only file: it
+// adds no code. Lines starting with //@ are parsed by govc; see /verif/DESIGN.md.
+
+// C08: the access predicates of the controller state adapter are evaluated over adapter.Inputs.
+// The declaration accepted by UpdateInputs must therefore be a private snapshot: a slice the
+// controller cannot reach (it keeps the one it passed in), holding exactly the accepted inputs.
+//@ func (*Adapter).UpdateInputs
+//@   props C08
+//@   requires [wired] adapter != nil && adapter.depDB != nil && adapter.watchFunc != nil
+//@   ensures [declared-inputs-are-a-private-snapshot] result == nil ==> len(adapter.Inputs) == len(deps) && (len(deps) > 0 ==> fresh(adapter.Inputs)) &&
+//@     (forall k int :: 0 <= k && k < len(deps) ==> adapter.Inputs[k] == deps[k])
+//@   loop #2
+//@     invariant [cursors] 0 <= i && 0 <= j && adapter != nil && adapter.depDB != nil && adapter.watchFunc != nil
+// The wiring fields are assigned once in NewAdapter; the callees below (dependency database, watch
+// filter bookkeeping, the runtime's watch callback) are not under contract, so that they leave the
+// wiring alone is an assumption.
+//@   at GetControllerInputs #1
+//@     assume_result [wiring-kept] adapter.depDB != nil && adapter.watchFunc != nil
+//@   at DeleteControllerInput #1
+//@     assume_result [wiring-kept] adapter.depDB != nil && adapter.watchFunc != nil
+//@   at deleteWatchFilter #1
+//@     assume_result [wiring-kept] adapter.depDB != nil && adapter.watchFunc != nil
+//@   at AddControllerInput #1
+//@     assume_result [wiring-kept] adapter.depDB != nil && adapter.watchFunc != nil
+//@   at addWatchFilter #1
+//@     assume_result [wiring-kept] adapter.depDB != nil && adapter.watchFunc != nil
+//@   at watchFunc #1
+//@     assume_result [wiring-kept] adapter.depDB != nil && adapter.watchFunc != nil
